@@ -66,6 +66,11 @@ HISTORY = {
     'C13r2-B': ('missed', 'new rule R-length-symmetry'),
     'C14-A': ('missed', 'new rule R-silent-timeout'),
     'C15-B': ('missed', 'R-cmd-shapes extended: shape selection evaluated for empty/non-empty args x kwargs; listed under C15'),
+    'C08r2-A': ('missed', 'new rule R-offset-coherent (in-memory and published end offset agree at every record write / return)'),
+    'C08r2-B': ('caught', 'R-record-layout (reader loop bound) existed'),
+    'C17r2-A': ('caught', 'R-version-select existed'),
+    'C17r2-B': ('missed', 'R-version-pairing extended: every (wildcard) store of the enabled version reaches a table rebuild on all normal paths'),
+    'C05r2-B': ('missed', 'new rule R-serializer-idle'),
 }
 
 
